@@ -242,7 +242,7 @@ def _residue(loop):
 
 def execute(build, prefix=(), *, eager=False, salt=1, fine=False, horizon=5000,
             k2_budget=2, idle_only=False, k1=True, residue=False, keep_world=False,
-            controller=None, env_budget=None, cuts=None, threads=None):
+            controller=None, env_budget=None, cuts=None, threads=None, early_budget=0):
     """Run one execution.  ``build(world)`` returns the main coroutine function."""
     if threads is not None:
         from .texec import execute_threaded
@@ -265,7 +265,7 @@ def execute(build, prefix=(), *, eager=False, salt=1, fine=False, horizon=5000,
     else:
         chooser = Chooser(prefix)
         ctl = Controller(chooser, fine=fine, horizon=horizon, k2_budget=k2_budget,
-                         idle_only=idle_only, k1=k1)
+                         idle_only=idle_only, k1=k1, early_budget=early_budget)
     loop = VLoop(ctl)
     loop.set_task_factory(_eager_factory if eager else _plain_factory)
     world = World(loop, ctl, {"eager": eager, "salt": salt, "fine": fine})
